@@ -3,7 +3,7 @@
 the first blank line after it)."""
 import glob, json, os, re
 ROOT = os.path.dirname(os.path.dirname(os.path.abspath(__file__)))
-ROUND = {"a": 1, "b": 2, "c": 3, "d": 4, "e": 5, "f": 6, "g": 7, "h": 8}
+ROUND = {"a": 1, "b": 2, "c": 3, "d": 4, "e": 5, "f": 6, "g": 7, "h": 8, "i": 9}
 rows = []
 tot = caught = 0
 for p in sorted(glob.glob(os.path.join(ROOT, "seeded", "*", "meta.json"))):
